@@ -593,9 +593,11 @@ fn stack_padding_sent(queued: bool, bypass_case: u8) {
     // possibly one normal packet already waiting to enter the tunnel on this side
     let qtime = any_instant();
     kani::assume(qtime <= now);
+    // the waiting normal packet may itself have been allowed to bypass by an earlier replaced padding
+    let q_bypass: bool = if bypass_case == 1 { kani::any() } else { false };
     if queued {
         sq.push_sim(SimEvent { event: TriggerEvent::TunnelSent, time: qtime, integration_delay: Duration::ZERO, client: is_client,
-            contains_padding: false, bypass: false, replace: false, debug_note: None });
+            contains_padding: false, bypass: q_bypass, replace: false, debug_note: None });
     }
     let bypass: bool = if bypass_case == 2 { kani::any() } else { bypass_case == 1 };
     let replace: bool = kani::any();
@@ -606,21 +608,23 @@ fn stack_padding_sent(queued: bool, bypass_case: u8) {
     let mine = if is_client { &sq.client } else { &sq.server };
     let theirs = if is_client { &sq.server } else { &sq.client };
     assert!(theirs.len() == 0 && mine.base.len() == 0 && mine.internal.len() == 0, "C15: padding sent on one side queues nothing but tunnel packets on that side");
-    if replace && queued {
+    // the waiting packet can take the padding's place only if it is itself held back by the blocking rules
+    let replaced = replace && queued && (!q_bypass || !side.blocking_bypassable);
+    if replaced {
         assert!(mine.len() == 1, "C15: a replaced padding adds no packet: the queued normal packet is sent in its place (never duplicated, never dropped)");
         let e = if mine.blocking.len() == 1 { mine.blocking.peek().unwrap() } else { mine.bypassable.peek().unwrap() };
         assert!(e.event == TriggerEvent::TunnelSent && e.time == qtime && !e.contains_padding && e.client == is_client, "C15: the queued normal packet keeps its kind, side and time");
-        assert!(e.bypass == bypass, "C16: the queued normal packet may bypass blocking only when the padding it replaces claims bypass");
+        assert!(e.bypass == (bypass || q_bypass), "C16: the queued normal packet may bypass blocking only when a padding it replaced claimed bypass");
     } else {
         assert!(mine.len() == 1 + queued as usize, "C15: padding that replaces nothing is queued as exactly one packet");
-        let e = if bypass { mine.bypassable.peek() } else if queued { mine.blocking.iter().find(|e| e.contains_padding) } else { mine.blocking.peek() };
+        let e = if bypass { mine.bypassable.iter().find(|e| e.contains_padding) } else { mine.blocking.iter().find(|e| e.contains_padding) };
         assert!(e.is_some(), "C16: only padding whose action has the bypass flag is queued as bypassable");
         let e = e.unwrap();
         assert!(e.event == TriggerEvent::TunnelSent && e.time == now && e.contains_padding && e.bypass == bypass && e.replace == replace && e.client == is_client,
             "C15: queued padding stays padding and carries its action's flags");
         if queued {
-            let n = mine.blocking.iter().find(|e| !e.contains_padding);
-            assert!(n.is_some() && n.unwrap().time == qtime && !n.unwrap().bypass, "C15: the queued normal packet is untouched by padding that does not replace it");
+            let n = mine.blocking.iter().chain(mine.bypassable.iter()).find(|e| !e.contains_padding);
+            assert!(n.is_some() && n.unwrap().time == qtime && n.unwrap().bypass == q_bypass, "C15: the queued normal packet is untouched by padding that does not replace it");
         }
     }
     kani::cover!(replace && (bypass || bypass_case == 0), "padding with the replace flag (and bypass where the instance allows it)");
